@@ -6,6 +6,8 @@ def run(R):
     if not R.build():
         return
     R.lean(["C02", "C02Apply", "C03Run"])
+    import hunted
+    hunted.run(R, "C02")
     quick = R.tier == "quick"
     rng = R.rng
     # T1: whitespace matcher, exhaustive small scope + random pairs; oracle = independent Python normal form
